@@ -63,6 +63,8 @@ type worker struct {
 	rig   *rhpx.Rig
 	s     *rhpx.Sess
 	cid   int   // the contract currently exercised (changes when it is refreshed)
+	// retired: the last contracts this worker renewed or refreshed away from; they are still audited
+	retired []int
 	// duringRenewal: the next renew/refresh tries other RPCs on the contract while it is in flight
 	duringRenewal bool
 	cur   []int // the harness's expectation of the contract's roots
@@ -233,6 +235,7 @@ func (w *worker) check(c *vh.Case, rpc, variant string, before snap, res rhpx.Re
 	if expect != nil && !eqInts(rhpx.RootIDList(st.Roots), expect) {
 		c.Oracle("list-model:"+rpc+":"+variant, "%s (%s, %s): host roots %v, list model %v", rpc, variant, res.Cls, rhpx.RootIDList(st.Roots), expect)
 	}
+	w.auditRetired(c, rpc)
 	// keep the expectation in sync with reality so later cases start from the truth
 	w.cur = rhpx.RootIDList(st.Roots)
 }
@@ -735,6 +738,22 @@ func (w *worker) history(name string, rng *vh.RNG, steps, maxN int) error {
 // ---------------------------------------------------------------------------------------------
 
 
+// auditRetired: a contract that has been renewed or refreshed keeps its last committed revision and
+// exactly the roots that revision commits to, whatever happens to its successor.
+func (w *worker) auditRetired(c *vh.Case, rpc string) {
+	for _, old := range w.retired {
+		st, err := w.rig.HostState(w.s.CID(old))
+		if err != nil {
+			c.Oracle("lost-contract:retired", "the renewed contract %d vanished: %v", old, err)
+			continue
+		}
+		if proto4.MetaRoot(st.Roots) != st.Revision.FileMerkleRoot || uint64(len(st.Roots))*proto4.SectorSize != st.Revision.Filesize {
+			c.Oracle("root-commit:retired-contract:"+rpc, "after %s on its successor, the renewed contract %d holds roots %v that no longer match its last committed revision %d (filesize %d)", rpc, old,
+				rhpx.RootIDList(st.Roots), st.Revision.RevisionNumber, st.Revision.Filesize)
+		}
+	}
+}
+
 // refreshInto refreshes (or renews) the worker's contract through the real client, renders the
 // outcome for the model (Op.renew), mines the renewal and makes the new contract the one under
 // test.  The oracle then applies to the NEW contract id: its stored roots must be exactly the old
@@ -806,7 +825,11 @@ func (w *worker) refreshInto(c *vh.Case, kind string) error {
 	}
 	tl, ti := w.s.TipLine()
 	c.Op(tl, ti)
-	// the new contract is the one under test from here on
+	// the new contract is the one under test from here on; the old one stays under audit
+	w.retired = append(w.retired, old)
+	if len(w.retired) > 2 {
+		w.retired = w.retired[len(w.retired)-2:]
+	}
 	w.cid = newc
 	fc := nst.Revision
 	if !eqInts(rhpx.RootIDList(nst.Roots), w.cur) {
